@@ -26,6 +26,10 @@ def jobs(tier):
                      unwind=max(r, c, 2) + 3, unwindset=["DVectorResize.0:%d" % (r + c + 4)], functions=["serialize_dvectorlist", "deserialize_dvectorlist"], bound="two vectors of lengths %d and %d, contents symbolic" % (r, c),
                      clause="vector-list serialiser pair is inverse; length formula"))
     for (r, c, r2, c2) in ([(1, 2, 3, 1), (2, 2, 1, 3), (3, 1, 1, 1)] if tier == "quick" else [(1, 2, 3, 1), (2, 2, 1, 3), (3, 1, 1, 1), (2, 3, 3, 2), (1, 1, 4, 2)]):
+        J.append(Job("tensor_serialize@%dx%d,%dx%d" % (r, c, r2, c2), "C16/serial.c", entry="h_tensor_serialize", srcs=S, kind="bounded",
+                     defines={"VC_R": r, "VC_C": c, "VC_R2": r2, "VC_C2": c2}, unwind=max(r, c, r2, c2, 2) + 3, unwindset=["DVectorResize.0:%d" % (r * c + r2 * c2 + 8)],
+                     functions=["serialize_tensor"], bound="two blocks %dx%d and %dx%d, contents symbolic" % (r, c, r2, c2),
+                     clause="tensor serialiser: length formula, layout, in-bounds writes for blocks of different shapes"))
         if tier == "quick":
             continue    # the deserialiser's loop bounds come back from double->size_t conversions that symex does not fold; the instances exhaust the solver's memory. Thorough tier only.
         J.append(Job("tensor_roundtrip@%dx%d,%dx%d" % (r, c, r2, c2), "C16/serial.c", entry="h_tensor_roundtrip", srcs=S, kind="bounded",
